@@ -246,6 +246,7 @@ class Tr:
         self.locals = dict(locals_ or {})   # name -> lean type of variables bound inside
         self.byte_ptr = None    # name of the `const unsigned char*` parameter, if any
         self.cur_byte = None    # Lean name standing for *p inside a string-walk loop
+        self.conv_names = {}    # site key "conv": {"8": "my_conv8", ...} renames the convertor functions
 
     def fv(self, name, ty):
         name = lname(name)
@@ -331,6 +332,23 @@ class Tr:
             if op == "-": return f"(-{e})"
             if op == "+": return e
             raise Broken(f"unary operator {op}")
+        if k == "CXXOperatorCallExpr":
+            # `convertor( x )` : endianness_convertor::operator() -> the generated conv<w>
+            # (the site file must define / import conv8, conv16, ...; need_conversion is a free variable)
+            if len(inner) == 3 and "endianness_convertor" in (inner[1].get("type", {}).get("qualType", "")):
+                ct = ctype(n); arg = inner[2]
+                e = self.cast(self.expr(arg), ctype(arg), ct)
+                fn = self.conv_names.get(str(ct[1]), f"conv{ct[1]}")
+                if ct[1] == 8:
+                    return f"({fn} {e})"
+                return f"({fn} {e} {self.fv('need_conversion', 'Bool')})"
+            raise Broken("overloaded operator call")
+        if k == "BinaryOperator" and n["opcode"] in ("==", "!=") and len(inner) == 2 and \
+                any(self.is_null_ptr(x) for x in inner):
+            # pointer compared with null: a Bool free variable `<name>_null`
+            other = inner[1] if self.is_null_ptr(inner[0]) else inner[0]
+            v = self.fv(self.ptr_name(other) + "_null", "Bool")
+            return v if n["opcode"] == "==" else f"(!{v})"
         if k == "BinaryOperator":
             op = n["opcode"]; a, b = inner
             if op == ",":
@@ -424,6 +442,29 @@ class Tr:
             except Broken:
                 raise Broken(f"sizeof({q})")
         raise Broken(f"expression kind {k}")
+
+    def is_null_ptr(self, x):
+        while x.get("kind") in ("ParenExpr",) and x.get("inner"):
+            x = x["inner"][-1]
+        if x.get("kind") == "ImplicitCastExpr" and x.get("castKind") == "NullToPointer":
+            return True
+        return x.get("kind") == "CXXNullPtrLiteralExpr"
+
+    def ptr_name(self, x):
+        while x.get("kind") in ("ParenExpr", "ImplicitCastExpr", "CXXConstCastExpr", "CXXReinterpretCastExpr",
+                                "CStyleCastExpr") and x.get("inner"):
+            x = x["inner"][-1]
+        if x.get("kind") == "DeclRefExpr":
+            return x.get("referencedDecl", {}).get("name", "ptr")
+        if x.get("kind") == "MemberExpr":
+            return x.get("name", "ptr")
+        if x.get("kind") == "CXXMemberCallExpr" and len(x.get("inner", [])) == 1:
+            callee = x["inner"][0]
+            base = callee.get("inner", [])
+            pre = self.obj_name(base[0]) if base and base[0]["kind"] != "CXXThisExpr" else ""
+            nm = re.sub(r"^get_", "", callee.get("name", "ptr"))
+            return (pre + "_" if pre else "") + nm
+        raise Broken("pointer expression compared with null is not a variable / getter")
 
     def shift_amount(self, b, eb):
         x = b
@@ -661,6 +702,12 @@ def find_function(docs, spec):
         if "record" in spec:
             if spec["record"] not in (d.get("name", ""), ) and not record_matches(d, n, spec["record"]):
                 continue
+        if "fargs" in spec:
+            # member function template: pick the specialisation by its own template arguments
+            fa = [re.sub(r"^ELFIO::", "", a.get("type", {}).get("qualType", ""))
+                  for a in n.get("inner", []) if a.get("kind") == "TemplateArgument"]
+            if fa[:len(spec["fargs"])] != spec["fargs"]:
+                continue
         out.append(n)
     if not out:
         raise Broken(f"function {spec} not found")
@@ -712,19 +759,30 @@ def select(fn, sel):
                         return n["inner"][1] if n["opcode"] == "=" else n
                     i += 1
         raise Broken(f"assignment to {name} #{nth} not found")
-    if kind in ("if", "while", "return"):
-        want = {"if": "IfStmt", "while": "WhileStmt", "return": "ReturnStmt"}[kind]
+    if kind in ("if", "while", "return", "for"):
+        want = {"if": "IfStmt", "while": "WhileStmt", "return": "ReturnStmt", "for": "ForStmt"}[kind]
         nth = int(arg or 0); i = 0
         for n in walk(body):
             if n.get("kind") == want:
                 if i == nth:
+                    if kind == "for":   # [init, condition variable, condition, increment, body]
+                        return n["inner"][2]
                     return strip_comments(n)[0]
                 i += 1
         raise Broken(f"{kind} #{nth} not found")
+    if kind == "binop":
+        # binop:OP#k  = k-th binary operator with opcode OP (pre-order), e.g. `index * entry_size`
+        opc, _, nth = arg.rpartition("#"); nth = int(nth or 0); i = 0
+        for n in walk(body):
+            if n.get("kind") == "BinaryOperator" and n.get("opcode") == opc:
+                if i == nth:
+                    return n
+                i += 1
+        raise Broken(f"binary operator {opc} #{nth} not found")
     if kind == "callarg":
         callee, _, rest = arg.partition("#"); nth, _, argi = rest.partition("."); nth = int(nth or 0); argi = int(argi or 0); i = 0
         for n in walk(body):
-            if n.get("kind") in ("CallExpr", "CXXMemberCallExpr", "CXXNewExpr"):
+            if n.get("kind") in ("CallExpr", "CXXMemberCallExpr", "CXXNewExpr", "CXXOperatorCallExpr"):
                 nm = ""
                 for x in walk(n["inner"][0]) if n.get("inner") else []:
                     if x.get("kind") == "MemberExpr": nm = x.get("name", ""); break
@@ -743,6 +801,7 @@ def translate_site(site, consts, sizes, key):
     docs = clang_docs(site["filter"], key)
     fn = find_function(docs, site)
     tr = Tr(consts, sizes)
+    tr.conv_names = dict(site.get("conv", {}))
     params = []
     for p in fn.get("inner", []):
         if p.get("kind") == "ParmVarDecl":
@@ -757,7 +816,7 @@ def translate_site(site, consts, sizes, key):
                     params.append((lname(p["name"]), "List (BitVec 8)"))
                     tr.locals[lname(p["name"])] = "List (BitVec 8)"
             elif ct:
-                params.append((lname(p["name"]), lean_ty(ct)))
+                params.append((lname(p.get("name") or f"arg{len(params)}"), lean_ty(ct)))   # unnamed parameter
     node = select(fn, site.get("select", "function"))
     if site.get("select", "function") == "function":
         for nme, ty in params:
